@@ -26,13 +26,64 @@ def _ann_is_set(ann: ast.AST | None) -> bool:
     return head in ("set", "frozenset", "Set", "FrozenSet", "typing.Set", "AbstractSet")
 
 
-class UnorderedKinds:
-    """very small flow-insensitive kind inference inside one function / class."""
+# package-wide facts computed once per Index (inter-procedural step): which functions return a set, and which
+# parameters are handed a set by some caller (resolved by simple name when that name is unique in the package)
+_GLOBAL: dict = {}
 
-    def __init__(self, mod, f):
+
+def global_kinds(idx):
+    key = id(idx)
+    if key in _GLOBAL:
+        return _GLOBAL[key]
+    facts = {"returns_set": set(), "set_params": {}}
+    _GLOBAL.clear()
+    _GLOBAL[key] = facts
+    mods = idx.all_modules("cohdl/")
+    by_name: dict[str, list] = {}
+    for m in mods:
+        for q, f in m.functions.items():
+            by_name.setdefault(f.node.name, []).append((m, f))
+    for _round in range(3):
+        # functions all of whose value-returns are unordered expressions
+        for m in mods:
+            for q, f in m.functions.items():
+                k = UnorderedKinds(m, f, facts)
+                rets = [r for r in walk_local(f.node, include_self=False) if isinstance(r, ast.Return) and r.value is not None]
+                if rets and all(k.is_unordered(r.value) for r in rets):
+                    facts["returns_set"].add(f.node.name)
+        # call sites passing an unordered argument
+        for m in mods:
+            for q, f in m.functions.items():
+                k = UnorderedKinds(m, f, facts)
+                for c in walk_local(f.node, include_self=False):
+                    if not isinstance(c, ast.Call):
+                        continue
+                    name = c.func.attr if isinstance(c.func, ast.Attribute) else (c.func.id if isinstance(c.func, ast.Name) else None)
+                    cands = by_name.get(name) or []
+                    if name == "__init__" or len(cands) != 1:
+                        # constructor call `Cls(args)`: resolve to Cls.__init__
+                        cls_inits = [(m2, g) for m2 in mods for q2, g in m2.functions.items() if q2 == f"{name}.__init__"] if name else []
+                        if len(cls_inits) == 1:
+                            cands = cls_inits
+                        else:
+                            continue
+                    m2, g = cands[0]
+                    params = [a.arg for a in g.node.args.posonlyargs + g.node.args.args]
+                    off = 1 if params[:1] in (["self"], ["cls"]) else 0
+                    for i, a in enumerate(c.args):
+                        if k.is_unordered(a) and i + off < len(params):
+                            facts["set_params"].setdefault((m2.rel, g.qualname), set()).add(params[i + off])
+    return facts
+
+
+class UnorderedKinds:
+    """very small flow-insensitive kind inference inside one function / class (plus the package-wide facts)."""
+
+    def __init__(self, mod, f, facts=None):
         self.mod = mod
         self.f = f
-        self.names: set[str] = set()
+        self.facts = facts or {"returns_set": set(), "set_params": {}}
+        self.names: set[str] = set(self.facts["set_params"].get((mod.rel, f.qualname), ()))
         self.attrs: set[str] = set()  # self.<attr>
         fn = f.node
         a = fn.args
@@ -93,6 +144,9 @@ class UnorderedKinds:
                 "union", "intersection", "difference", "symmetric_difference", "copy",
             ):
                 return self.is_unordered(e.func.value)
+            called = e.func.attr if isinstance(e.func, ast.Attribute) else (e.func.id if isinstance(e.func, ast.Name) else None)
+            if called in self.facts["returns_set"] and called not in ("copy", "get", "pop"):
+                return True
             return False
         if isinstance(e, ast.BinOp) and isinstance(e.op, (ast.BitOr, ast.BitAnd, ast.Sub, ast.BitXor)):
             def keysview(x):
@@ -109,9 +163,9 @@ class UnorderedKinds:
         return False
 
 
-def find_sites(mod, f):
+def find_sites(mod, f, facts=None):
     """-> list of (node, kind, iterated-expression-source)."""
-    kinds = UnorderedKinds(mod, f)
+    kinds = UnorderedKinds(mod, f, facts)
     pm = mod.parents
     out = []
     for n in walk_local(f.node, include_self=False):
